@@ -1,4 +1,5 @@
 import PyramidModel.Lemmas.ExcViewRefine
+import PyramidModel.Gen.C14Probe
 /-!
 # C14 — an exception in request handling is rendered by the most specific exception view
 
@@ -265,7 +266,7 @@ theorem http_exception_is_own_response (w : World) (stmts : List Stmt) (site : S
 
 /-- the statement `add_view(default_exceptionresponse_view, context=IExceptionResponse)` of `setup_registry`; `x` is the id
 of `IExceptionResponse` -/
-def defaultStmt (x tag : Nat) : Stmt := ⟨0, x, "", [], none, .unset, true, false, tag, .returnContext, false⟩
+def defaultStmt (x tag : Nat) : Stmt := ⟨0, x, "", [], none, .unset, true, false, tag, .returnContext, false, .fnCR⟩
 
 /-- its registration under the exception classifier: never protected (whatever policy / default permission) -/
 def defaultExcReg (x tag : Nat) : ViewReg := ⟨clsExc, 0, x, "", [], none, false, tag⟩
@@ -551,6 +552,68 @@ theorem exception_view_predicates_context (r : Request) (e : Exc) (comb : List N
   · intro vals; rfl
   · intro reqs; rfl
 
+/-! ## the view mapper's calling convention -/
+
+/-- the kinds and the names the probe translator uses for them -/
+def allKinds : List (ViewKind × String) :=
+  [(.fnCR, "fn2"), (.fnR, "fn1"), (.clsCR, "cls2"), (.clsCRcall, "cls2c"), (.clsR, "cls1"), (.instCR, "inst2"), (.instR, "inst1")]
+
+/-- what the model says a probe of the running mapper must report: the user's callable is handed the mapped view's
+context argument (the resource for an ordinary view, the exception for an exception view) or nothing, whether or not an
+ordinary view of the same class raised earlier in the request, and a class is instantiated for every call -/
+def probeRow (k : ViewKind) (name : String) (exc before : Bool) : String × Bool × Bool × String × Bool :=
+  (name, exc, before,
+   (match k.userContext (if exc then 1 else 0) (if before then some 0 else none) with
+    | some 1 => "exception"
+    | some _ => "resource"
+    | none => "none"),
+   k.constructsPerCall)
+
+/-- **The running view mapper follows the modelled calling convention** — the whole generated probe table (every kind ×
+ordinary / exception view × "an ordinary view of the same class raised before in this request"), decided. -/
+theorem probe_table_as_modelled :
+    Gen.C14.probe = allKinds.flatMap fun (k, name) =>
+      [probeRow k name false false, probeRow k name true false, probeRow k name true true] := by decide
+
+/-- **The exception view's context IS the exception, for every kind of view callable**: whenever the body of an exception
+view ran, the mapped view was called with the caught exception as context, and every kind of callable that is handed a
+context at all (function `(context, request)`, class with `__init__(context, request)` — through `attr=` or `__call__` —,
+instance) was handed exactly that exception — never the context an earlier instance of the same class was built with;
+request-only kinds are handed none. -/
+theorem exception_view_context_is_exception (w : World) (stmts : List Stmt) (site : Site) (r : Request) (comb : List Nat)
+    (ctxObj : Nat) (d : Dict) (s : Seen) (hc : Coherent (allRegs w.sec stmts)) (hw : w.ok = true)
+    (hseen : (excviewTween w stmts site r comb ctxObj d).seen = some s) :
+    ∃ (e : Exc) (k : ViewKind), (excviewTween w stmts site r comb ctxObj d).caught = some e ∧ s.context = e.id ∧
+      s.userContext = (if k.receivesContext then some e.id else none) ∧
+      ∀ earlier, k.userContext e.id earlier = s.userContext := by
+  have hcaught := caught_is_what_the_handler_raised w stmts site r comb ctxObj d hc
+  have h := (excview_eq_spec w stmts site r comb ctxObj d hc hw).2.1
+  rw [hseen] at h
+  simp only [expected] at h
+  cases hs : specHandler w stmts site r ctxObj with
+  | ok resp => rw [hs] at h; simp at h
+  | error e =>
+    rw [hs] at h hcaught
+    simp only [specRender] at h
+    cases hwin : excWinner w stmts r e comb with
+    | none => rw [hwin] at h; simp at h
+    | some v =>
+      rw [hwin] at h
+      refine ⟨e, kindOf stmts v.tag, hcaught, ?_⟩
+      simp only at h
+      split at h
+      · simp at h
+      · split at h <;> (simp only [Option.some.injEq] at h; subst h; simp [seenOf, ViewKind.userContext])
+
+/-- the convention, kind by kind (what `map_class_native`, `map_class_requestonly`, `map_nonclass_requestonly`,
+`map_nonclass_attr` and the unwrapped case do) -/
+theorem mapper_calling_convention (c : Nat) (earlier : Option Nat) :
+    ViewKind.fnCR.userContext c earlier = some c ∧ ViewKind.clsCR.userContext c earlier = some c ∧
+    ViewKind.clsCRcall.userContext c earlier = some c ∧ ViewKind.instCR.userContext c earlier = some c ∧
+    ViewKind.fnR.userContext c earlier = none ∧ ViewKind.clsR.userContext c earlier = none ∧
+    ViewKind.instR.userContext c earlier = none := by
+  simp [ViewKind.userContext, ViewKind.receivesContext]
+
 /-! ## registration: which classifier, which protection -/
 
 /-- **`exception_only` views are not ordinary views; non-exception contexts give no exception view; otherwise both.** -/
@@ -618,7 +681,7 @@ private def worldW : World where
 qualifies (it is the winner), yet what leaves the tween is a new `HTTPForbidden` — neither a response of `v1` nor the
 original exception.  (The harness replays this witness on the real code: corpus `w01`.) -/
 theorem protected_exception_view_refusal_propagates :
-    let stmts : List Stmt := [⟨0, 100, "", [], none, .named, true, false, 1, .respond, false⟩]
+    let stmts : List Stmt := [⟨0, 100, "", [], none, .named, true, false, 1, .respond, false, .fnCR⟩]
     let e : Exc := excOf 500 [101, 100, 42, 0] false none
     let res := excviewTween worldW stmts (.early e) reqW [0, 50] 700 []
     coherentB (allRegs worldW.sec stmts) = true ∧ worldW.ok = true ∧
@@ -639,10 +702,10 @@ exception; attributes persist; a prior `request.exception` survives a no-match. 
 example :
     let stmts : List Stmt :=
       [defaultStmt 80 9000,
-       ⟨0, 103, "", [⟨"request_method", false, .method ["POST"]⟩], none, .noPermissionRequired, true, true, 1, .respond, false⟩,
-       ⟨1, 100, "", [], none, .noPermissionRequired, true, true, 2, .respond, false⟩,
-       ⟨0, 100, "", [⟨"header", false, .headers ["X-A"]⟩], none, .unset, true, false, 3, .respond, false⟩,
-       ⟨0, 0, "", [], none, .unset, false, false, 4, .raise (excOf 2004 [103, 101, 100, 102, 46, 80, 42, 0] true (some 404)), false⟩]
+       ⟨0, 103, "", [⟨"request_method", false, .method ["POST"]⟩], none, .noPermissionRequired, true, true, 1, .respond, false, .fnCR⟩,
+       ⟨1, 100, "", [], none, .noPermissionRequired, true, true, 2, .respond, false, .fnCR⟩,
+       ⟨0, 100, "", [⟨"header", false, .headers ["X-A"]⟩], none, .unset, true, false, 3, .respond, false, .fnCR⟩,
+       ⟨0, 0, "", [], none, .unset, false, false, 4, .raise (excOf 2004 [103, 101, 100, 102, 46, 80, 42, 0] true (some 404)), false, .fnCR⟩]
     let e : Exc := excOf 500 [103, 101, 100, 102, 46, 80, 42, 0] true (some 404)
     let routed := excviewTween worldW stmts (.early e) reqP [20, 1, 0, 50] 700 [("exception", 600), ("exc_info", 600)]
     let plain := excviewTween worldW stmts (.early e) reqP [0, 50] 700 []
@@ -651,7 +714,7 @@ example :
                      [("exception", 600), ("exc_info", 600), ("response", 900)]
     coherentB (allRegs worldW.sec stmts) = true ∧ tagsUniqueB stmts = true ∧ stmtsOkB stmts = true ∧
     (candidates (allRegs worldW.sec stmts) clsExc (excRequest reqP e [20, 1, 0, 50])).map (·.tag) = [2, 1, 3, 9000] ∧
-    routed.outcome = .ok (.view 2) ∧ routed.seen = some (seenOf e) ∧ dget routed.attrs "exception" = some 500 ∧
+    routed.outcome = .ok (.view 2) ∧ routed.seen = some (seenOf e .fnCR) ∧ dget routed.attrs "exception" = some 500 ∧
     plain.outcome = .ok (.view 3) ∧
     viaView.outcome = .ok (.view 3) ∧ (viaView.caught.map (·.id)) = some 2004 ∧ dget viaView.attrs "exc_info" = some 2004 ∧
     noview.outcome = .error (excOf 501 [47, 42, 0] false none) ∧ dget noview.attrs "exception" = some 600 ∧
@@ -663,8 +726,8 @@ in its slot and qualifies; the combined order is `[20, 1] ++ 0 :: [50]`, the exc
 winner (view 2) comes from the earlier, route-bound interface 1 -/
 example :
     let stmts : List Stmt :=
-      [⟨1, 100, "", [], none, .noPermissionRequired, true, true, 2, .respond, false⟩,
-       ⟨0, 100, "", [⟨"header", false, .headers ["X-A"]⟩], none, .unset, true, false, 3, .respond, false⟩]
+      [⟨1, 100, "", [], none, .noPermissionRequired, true, true, 2, .respond, false, .fnCR⟩,
+       ⟨0, 100, "", [⟨"header", false, .headers ["X-A"]⟩], none, .unset, true, false, 3, .respond, false, .fnCR⟩]
     let e : Exc := excOf 500 [103, 101, 100, 102, 46, 80, 42, 0] true (some 404)
     let reg : ViewReg := ⟨clsExc, 0, 100, "", [⟨"header", false, .headers ["X-A"]⟩], none, false, 3⟩
     derive reg ∈ inForce (slotRegs (allRegs worldW.sec stmts) ⟨clsExc, 0, 100, ""⟩) ∧
@@ -679,7 +742,7 @@ the exception view for it (`exc_info` not given, `reraise=True`), no view qualif
 request still says `exception = exc_info = X1`, and `response` is the one from before; with `reraise=False` an
 `HTTPNotFound` leaves instead; explicit invocation of a tween-over-excview exception equals what the tween gives. -/
 example :
-    let stmts : List Stmt := [⟨0, 100, "", [], none, .noPermissionRequired, true, true, 1, .respond, true⟩]
+    let stmts : List Stmt := [⟨0, 100, "", [], none, .noPermissionRequired, true, true, 1, .respond, true, .fnCR⟩]
     let e1 : Exc := excOf 500 [101, 100, 42, 0] false none
     let e2 : Exc := excOf 550 [47, 42, 0] false none
     let d : Dict := [("response", 900)]
@@ -701,7 +764,7 @@ example :
 /-- hypotheses of `unmatched_url_yields_404` / `default_view_renders_http_exception` are satisfiable: only the default
 statement and an ordinary view named `x`; the URL `/` matches nothing -/
 example :
-    let stmts : List Stmt := [defaultStmt 80 9000, ⟨0, 0, "x", [], none, .unset, false, false, 1, .respond, false⟩]
+    let stmts : List Stmt := [defaultStmt 80 9000, ⟨0, 0, "x", [], none, .unset, false, false, 1, .respond, false, .fnCR⟩]
     coherentB (allRegs worldW.sec stmts) = true ∧ worldW.ok = true ∧
     expectedView (allRegs worldW.sec stmts) clsView reqW = .none ∧ worldW.notFound.status = some 404 ∧
     derive (defaultExcReg 80 9000) ∈ inForce (slotRegs (allRegs worldW.sec stmts) ⟨clsExc, 0, 80, ""⟩) ∧
